@@ -25,7 +25,9 @@ check("C08", "exploration",
       "every element pair (and triple, for orders <= 32; <= 256 in thorough) of Fp31, Boolean, Gf2, Gf3Bit, "
       "Gf8Bit, Gf9Bit against an independent integer / carry-less reference; boundary-alphabet pairs and "
       "triples for the >= 20-bit fields; moduli certified by exhaustive trial division; accumulators, batch "
-      "inversion, Lagrange tables, share and array arithmetic against plain field formulas. "
+      "inversion, Lagrange tables, share and array arithmetic against plain field formulas; construction from integers up "
+      "to u128::MAX (every power of two +-1, all-ones low parts under every high bit, the last 64 integers) must give the "
+      "canonical element with a canonical encoding. "
       "distinct_nontrivial = distinct ordered operand pairs (excluding (0,0)) per field, summed.",
       [{"name": "fields", "config": "A", "test": "verif::c08::run"}],
       assumptions=["curve25519-dalek Scalar arithmetic is executed, compared with a 256-bit reference on a boundary alphabet only",
@@ -187,9 +189,14 @@ check("C09", "exploration",
       "BA20, two-byte shares): accepted => re-encodes to itself, #accepted = #values; slot-wise canonical/non-canonical faults "
       "(single slots and pairs) for the large scalars, shares, StdArray widths, proof/diff arrays, PRF report, seeds, hashes, tags, "
       "Ristretto points (2^17 byte windows); every supported transpose shape on all one-hot inputs per share (boundary cross for "
-      "256-wide shapes in quick). distinct_nontrivial = distinct byte strings / fault placements / one-hot matrices executed.",
+      "256-wide shapes in quick). Values produced by operations: for BA3..BA7, BA20, Boolean, Gf3/9/20Bit, Fp31/32/61 the constants, "
+      "every value (<= 512) or a boundary alphabet, and the results of not / neg / add / sub / mul and of truncate_from on integers "
+      "up to u128::MAX are encoded: the type's own decoder must accept the bytes, return the same value, and equal values must have "
+      "equal bytes. distinct_nontrivial = distinct byte strings / fault placements / one-hot matrices / operation results executed.",
       [{"name": "encodings", "config": "A", "test": "verif::c09::run",
-        "require": {"any": {"distinct:exhaustive_types": 15, "distinct:transposes": 20}}}],
+        "require": {"any": {"distinct:exhaustive_types": 15, "distinct:transposes": 20}}},
+       {"name": "ops", "config": "A", "test": "verif::c09o::run",
+        "require": {"any": {"op_result_encodings": 100000, "distinct:op_types": 10}}}],
       assumptions=[
                    "transposes are linear over GF(2): one-hot inputs form a basis (non-linear corruption would need a two-hot input)"],
       exhaustive=True, engine="E5 domain",
